@@ -1002,15 +1002,26 @@ def parse_tree_to_objgraph(
                     #      format(unresolved_count,unresolved_count))
                 if unresolved_count > 0:
                     error_text = "Unresolvable cross references:"
+                    location = None
 
                     for m in models:
+                        # Positions refer to the text of the model the
+                        # reference is located in.
+                        m_parser = m._tx_reference_resolver.parser
                         for _, _, delayed in m._tx_reference_resolver.delayed_crossrefs:
-                            line, col = parser.pos_to_linecol(delayed.position)
+                            line, col = m_parser.pos_to_linecol(delayed.position)
                             error_text += (
                                 f' "{delayed.obj_name}" of class '
                                 f'"{delayed.cls.__name__}" at {(line, col)}'
                             )
-                    raise TextXSemanticError(error_text, line=line, col=col)
+                            if location is None:
+                                location = (line, col, m._tx_filename)
+                    raise TextXSemanticError(
+                        error_text,
+                        line=location[0],
+                        col=location[1],
+                        filename=location[2],
+                    )
 
                 for m in models:
                     assert not m._tx_reference_resolver.parser._inst_stack
